@@ -298,6 +298,11 @@ def g_sparse(r, k):
         oi, oj = pick(r, [0, coord_offset(r, shape[0])]), pick(r, [0, coord_offset(r, shape[1])])
         if oi == 0 and oj == 0:
             oi = coord_offset(r, shape[0])
+        # the last legal coordinate on one axis, deterministically (products of two coordinates exceed 2^31 from 46341)
+        if k % 10 == 1:
+            oj = COORD_TOPS[-1] - (shape[1] - 1)
+        elif k % 10 == 3:
+            oi = COORD_TOPS[-1] - (shape[0] - 1)
     big = bool(oi or oj)
     i, j = (i.astype(np.int64) + oi).astype(np.uint16), (j.astype(np.int64) + oj).astype(np.uint16)
     ni, nj = shape[0] + oi, shape[1] + oj
@@ -319,7 +324,9 @@ def g_sparse(r, k):
                       args=[IN(v, "v"), IN(i, "i"), IN(j, "j"), nnz, OUT(nnz, np.float32, name="MV"),
                             OUT(nnz, np.int32, name="iMV"), OUT(nnz, np.int32, name="labels")], pre="sorted"))
     calls.append(dict(fn="sparse_blob2Dproperties", res=None,
-                      cls="blob2D:%s" % ("label0" if (nnz and (lb == 0).any()) else "nolabel0"),
+                      cls="blob2D:%s%s" % ("label0" if (nnz and (lb == 0).any()) else "nolabel0",
+                                           ":coord>46340" if (nnz and (lb > 0).any() and
+                                                              max(int(i[lb > 0].max()), int(j[lb > 0].max())) > 46340) else ""),
                       args=[IN(v, "v"), IN(i, "i"), IN(j, "j"), nnz, IN(lb, "labels"), OUT((n, NPROP2D), np.float64, name="results"),
                             int(n)], pre="labels in 0..npk (0 = background pixel, as sparse_connectedpixels(threshold) returns them)"))
     # mask_to_coo (dense mask: small origin only).  nnz == 0 is what sparseframe.from_data_mask passes for an empty
